@@ -124,6 +124,9 @@ func (p *poller) addDialer(c *Conn) error {
 	err := p.addReadWrite(fd)
 	if err != nil {
 		p.g.connsUnix[fd] = nil
+		// The dialer gets the error and gives up its place in the
+		// connections wait group, there's no close notification.
+		c.p = nil
 		_ = c.closeWithError(err)
 	}
 	return err
